@@ -281,6 +281,10 @@ impl Model {
                             if named_by_failed_foreign_request {
                                 props.push("C10");
                             }
+                            if was_removed_before {
+                                // explicit removal leaves no deletion marker (C18)
+                                props.push("C18");
+                            }
                             v.push(Verdict { props, signature: "refused-as-deleted-without-covering-deletion".into(), detail: ctx.clone() });
                         }
                     }
